@@ -19,6 +19,12 @@ struct FileSt {
     w: u64, // records flushed to the OS
     s: u64, // records fsynced
     synced_bytes: u64,
+    // (s, synced_bytes) before the most recent fsync of this file
+    s_prev: u64,
+    sb_prev: u64,
+    // set on the file a rotation created, until something is appended to it or it is fsynced: what the file before it
+    // had fsynced when that rotation began (a crash inside rotate() can leave the old file at any length from there on)
+    inrot: Option<(u64, u64)>,
 }
 
 pub struct WalRun {
@@ -128,12 +134,18 @@ impl WalRun {
     fn apply_hook(&mut self) -> u64 {
         let mut appends = 0;
         for ev in hook::take() {
+            if ev.kind == "rotate" {
+                // the fsync just before this event was the rotation's own
+                let prev = self.files.range(..ev.seq).next_back().map(|(_, f)| (f.s_prev, f.sb_prev));
+                let f = self.files.entry(ev.seq).or_default();
+                f.inrot = prev;
+                continue;
+            }
             let f = self.files.entry(ev.seq).or_default();
             match ev.kind {
-                "append" => { f.n += 1; appends += 1; }
+                "append" => { f.n += 1; appends += 1; f.inrot = None; }
                 "flush" => f.w = f.n,
-                "fsync" => { f.w = f.n; f.s = f.n; f.synced_bytes = ev.len; }
-                "rotate" => {}
+                "fsync" => { f.s_prev = f.s; f.sb_prev = f.synced_bytes; f.w = f.n; f.s = f.n; f.synced_bytes = ev.len; f.inrot = None; }
                 _ => {}
             }
         }
@@ -154,7 +166,7 @@ impl WalRun {
         for (seq, p) in log_files(&self.dir()) {
             let (ends, len) = boundaries(&p);
             let n = ends.len() as u64;
-            self.files.insert(seq, FileSt { n, w: n, s: n, synced_bytes: len });
+            self.files.insert(seq, FileSt { n, w: n, s: n, synced_bytes: len, s_prev: n, sb_prev: len, inrot: None });
         }
         if self.files.is_empty() {
             self.files.insert(0, FileSt::default());
@@ -252,11 +264,18 @@ impl WalRun {
 
     /// Per file: (seq, synced_bytes, disk_len, record end offsets on disk)
     fn disk(&self) -> Vec<(u64, u64, u64, Vec<u64>)> {
-        log_files(&self.dir())
-            .into_iter()
+        let lf = log_files(&self.dir());
+        let last = lf.last().map(|(s, _)| *s);
+        lf.into_iter()
             .map(|(seq, p)| {
                 let (ends, len) = boundaries(&p);
-                let sb = self.files.get(&seq).map(|f| f.synced_bytes).unwrap_or(0).min(len);
+                let mut sb = self.files.get(&seq).map(|f| f.synced_bytes).unwrap_or(0).min(len);
+                // crash inside rotate(): the file after this one is the last, still empty and fresh from a rotation
+                if let Some((nseq, nf)) = self.files.range((seq + 1)..).next() {
+                    if Some(*nseq) == last && nf.n == 0 {
+                        if let Some((_, psb)) = nf.inrot { sb = sb.min(psb); }
+                    }
+                }
                 (seq, sb, len, ends)
             })
             .collect()
@@ -273,6 +292,31 @@ impl WalRun {
             })
             .collect::<Vec<_>>())
     }
+}
+
+/// rotation profile: small operations (the log is rotated every few records), explicit syncs, crashes and probes;
+/// no close / checkpoint (recovery after a checkpoint skips the files before it - a separate, known finding)
+pub fn rotation_script(rng: &mut StdRng, len: usize) -> Vec<J> {
+    let mut out = vec![];
+    let kinds = ["cnode", "cnodep", "setp", "deln", "addl", "cedge", "setep", "cnode", "cnode"];
+    while out.len() < len {
+        let roll = rng.random_range(0..100);
+        if roll < 66 {
+            // x, y avoid the values that are tens of kilobytes long (k % 13 == 5)
+            let mut x = rng.random_range(0..40u64); if x % 13 == 5 { x += 1; }
+            let mut y = rng.random_range(0..40u64); if y % 13 == 5 { y += 1; }
+            if (x + y) % 13 == 5 { y += 2; if y % 13 == 5 { y += 1; } }
+            out.push(json!({"a": "op", "kind": kinds[rng.random_range(0..kinds.len())], "x": x, "y": y}));
+        } else if roll < 74 {
+            out.push(json!({"a": "sync"}));
+        } else if roll < 90 {
+            out.push(json!({"a": "crash", "r": rng.random_range(0..1_000_000u64)}));
+            out.push(json!({"a": "open"}));
+        } else {
+            out.push(json!({"a": "probes", "r": rng.random_range(0..1_000_000u64)}));
+        }
+    }
+    out
 }
 
 pub fn random_script(rng: &mut StdRng, len: usize, probes: bool) -> Vec<J> {
@@ -305,6 +349,8 @@ pub fn main(o: &Opts) -> i32 {
     let root = PathBuf::from(o.str("dir", "/tmp/gv-wal"));
     let every_byte = o.flag("every-byte");
     let flips = o.usize("flips", 4);
+    let maxlog = o.u64("maxlog", 0);
+    hook::set_max_log_size(maxlog);
     let mut scripts: Vec<(String, u64, Vec<J>)> = vec![];
     if let Some(p) = o.get("script") {
         for v in crate::util::read_ndjson(p) {
@@ -315,7 +361,8 @@ pub fn main(o: &Opts) -> i32 {
         let modes = ["Sync", "Batch", "Flush", "Adaptive"];
         for t in 0..o.usize("traces", 20) {
             let mode = modes[t % modes.len()];
-            scripts.push((mode.to_string(), 3, random_script(&mut rng, o.usize("len", 25), true)));
+            let sc = if maxlog > 0 { rotation_script(&mut rng, o.usize("len", 25)) } else { random_script(&mut rng, o.usize("len", 25), true) };
+            scripts.push((mode.to_string(), 3, sc));
         }
     }
     let mut nprobes = 0usize;
